@@ -311,14 +311,34 @@ def read_hr(seed_path, lat8, given, cen8):
 
 
 def bands(s):
+    """energies and k-derivative quantities of a system at the two k-points, evaluated directly on the object (no do_ws_dist):
+    band gradients and the internal terms of the Berry curvature need Ham and the centres only, the full curvature needs AA"""
     import wannierberri as wb
     res = []
-    q = ["energy"] + (["berry_curvature"] if s.has_R_mat("AA") else [])      # the curvature formula needs AA (external terms)
+    q = ["energy", "band_gradients", "berry_curvature_internal_terms"] + (["berry_curvature"] if s.has_R_mat("AA") else [])
     for k in KPTS:
         with quiet():
             r = wb.evaluate_k(s, k=k, quantities=q, return_single_as_dict=True)
-        res.append((np.array(r["energy"]), np.array(r["berry_curvature"]) if len(q) > 1 else np.zeros(1)))
+        res.append({name: np.array(r[name]) for name in q})
     return res
+
+
+def bands_deviation(a, b, same_centres):
+    """max deviation between the band quantities of two systems that hold the same Hamiltonian.  Energies always; band
+    gradients when the bands are not (nearly) degenerate; Berry curvature (internal terms; all terms when both have AA) when
+    in addition the centres are the same (the split into internal and external terms depends on them)"""
+    dev = 0.0
+    for ra, rb in zip(a, b):
+        ea = ra["energy"]
+        dev = max(dev, float(np.max(np.abs(ea - rb["energy"]))))
+        gap = float(np.min(np.diff(np.sort(ea)))) if len(ea) > 1 else 1.0
+        if gap > 1e-2:
+            dev = max(dev, float(np.max(np.abs(ra["band_gradients"] - rb["band_gradients"]))))
+            if same_centres:
+                dev = max(dev, float(np.max(np.abs(ra["berry_curvature_internal_terms"] - rb["berry_curvature_internal_terms"]))))
+                if "berry_curvature" in ra and "berry_curvature" in rb:
+                    dev = max(dev, float(np.max(np.abs(ra["berry_curvature"] - rb["berry_curvature"]))))
+    return dev
 
 
 SITE = {"SaveNpz": "to_npz", "LoadNpz": "from_npz", "WriteTb": "to_tb_file", "ReadTb": "from_tb_file",
@@ -445,18 +465,14 @@ class Replayer:
             real[e["dst"]] = got
             # bands and Berry curvature of the reloaded system (numeric part of the statement)
             if herm and e["src"] in real and (e["fresh"] or op != "LoadNpz"):
-                a, b = bands(real[e["src"]]), bands(got)
-                same_terms = set(src["mats"]) == set(gp["mats"]) and src["cen"] == gp["cen"]
-                for (ea, ca), (eb, cb) in zip(a, b):
-                    dev = float(np.max(np.abs(ea - eb)))
-                    gap = float(np.min(np.diff(np.sort(ea)))) if len(ea) > 1 else 1.0
-                    if same_terms and gap > 1e-2:
-                        dev = max(dev, float(np.max(np.abs(ca - cb))))
-                    self.maxdev = max(self.maxdev, dev)
-                    self.numeric += 1
-                    if dev > 1e-8:
-                        self.rep.violation("evaluate_k:reloaded_system", dict(info, step=op, deviation=dev, kpoints=KPTS))
-                        ok = False
+                dev = bands_deviation(bands(real[e["src"]]), bands(got), src["cen"] == gp["cen"])
+                self.maxdev = max(self.maxdev, dev)
+                self.numeric += len(KPTS)
+                if not dev <= 1e-8:
+                    self.rep.violation("evaluate_k:reloaded_system",
+                                       dict(info, step=op, deviation=dev, kpoints=KPTS,
+                                            what="energy / band_gradients / berry_curvature evaluated directly on the reloaded system"))
+                    ok = False
         return ok
 
 
@@ -681,8 +697,11 @@ def record_roundtrips(rep, vio, rng, n, wd):
                 except ValueError as ve:
                     rec["out"] = dict(err="projection: " + str(ve))
                 if herm and rec["out"]["err"] == "" and not ps["phon"]:
-                    for (ea, ca), (eb, cb) in zip(bands(s), bands(got)):
-                        maxdev = max(maxdev, float(np.max(np.abs(ea - eb))))
+                    dev = bands_deviation(bands(s), bands(got), ps["cen"] == rec["out"]["sys"]["cen"])
+                    maxdev = max(maxdev, dev)
+                    if not dev <= 1e-8:
+                        vio.violation("evaluate_k:reloaded_system", dict(meta=m, deviation=dev, kpoints=KPTS, origin="random recorded round trip",
+                                                                         what="energy / band_gradients / berry_curvature evaluated directly on the reloaded system"))
             m["exception"] = ex
             recs.append(rec)
             meta.append(m)
@@ -1239,7 +1258,7 @@ def _check(rep, pid, tier):
     rep.part("soc_npz_observation", **soc_observation(rng, wd))
     lap("precision")
 
-    rep.part("numeric_only", what="energy and Berry curvature of original vs reloaded system at two k-points (evaluate_k)",
+    rep.part("numeric_only", what="energy, band gradients and Berry curvature of original vs reloaded system at two k-points (evaluate_k on the objects as loaded)",
              comparisons=rp.numeric, max_deviation=max(rp.maxdev, mdev), tolerance=1e-8)
     rep.part("layout_information", information_only=True, replay_store=rp.info, replay_files=fobs,
              note="counts of differences that are not part of the statement: layout of the written files, order of R-vectors / group "
